@@ -75,6 +75,7 @@ func calledIn(body []Stmt, out map[string]bool) {
 		case *ForRange:
 			ex(x.Lo)
 			ex(x.Hi)
+			ex(x.Step)
 			sts(x.Body)
 		case *ForIn:
 			ex(x.Arr)
